@@ -116,6 +116,12 @@ Definition meta_key_int_gen (meta_key_checked : bool) (s : text) : option Z :=
   | _ => None
   end.
 
+(* decode_metadatum_to_json_value, arm Int (all three schemas): u64::try_from for x >= 0, i64::try_from for x < 0, each an
+   explicit error when the value does not fit; the JSON number literal is the decimal text *)
+Definition meta_int_to_json (z : Z) : result text :=
+  if 0 <=? z then (if z <? two64Z then Ok (print_Z z) else Err)
+  else (if - two63 <=? z then Ok (print_Z z) else Err).
+
 (* switches following /repo (flip when the repair of metadata.rs is committed; see checks/C14.py) *)
 Definition json_min_fixed : bool := true.    (* /repo eac05aa *)
 Definition meta_key_checked : bool := true.  (* /repo 4362d12 *)
